@@ -164,11 +164,14 @@ fn quote_for(text_has_dq: bool, text_has_sq: bool, ch: &mut Choices) -> char {
 }
 
 fn render_charref(c: char, ch: &mut Choices) -> String {
-    match ch.choose(4) {
+    match ch.choose(6) {
         0 => format!("&#{};", c as u32),
         1 => format!("&#x{:X};", c as u32),
         2 => format!("&#x{:x};", c as u32),
-        _ => format!("&#0{};", c as u32),
+        3 => format!("&#0{};", c as u32),
+        // zero padding beyond the digits any code point needs
+        4 => format!("&#x{:010X};", c as u32),
+        _ => format!("&#{:012};", c as u32),
     }
 }
 
